@@ -87,6 +87,8 @@ def match(p, n, env) -> bool:
                      "end_col_offset", "kind"):
             continue
         pv, nv = getattr(p, fname, None), getattr(n, fname, None)
+        if fname in ("returns", "annotation", "type_params") and not pv:
+            continue        # annotations the pattern does not mention do not matter
         if isinstance(pv, list):
             if not isinstance(nv, list) or len(pv) != len(nv):
                 return False
